@@ -49,8 +49,18 @@ def run(rep, tier):
         if f.rec != DQ:
             continue
         fl = None
+        defs_ = None
         for n in f.walk():
-            if n.get('callee', {}).get('q') == 'event_free' and any(s['k'] == 'MemberExpr' and s['ref']['name'] == 'event' for s in sub(n)):
+            is_free = n.get('callee', {}).get('q') == 'event_free'
+            timer = is_free and any(s['k'] == 'MemberExpr' and s['ref']['name'] == 'event' for s in sub(n))
+            if is_free and not timer:
+                # the timer handed through a parameter / local (an extracted `disarmAndFreeTimer(struct event*)`)
+                defs_ = defs_ if defs_ is not None else path.local_defs(f)
+                for x in sub(n):
+                    if x['k'] == 'DeclRefExpr' and x.get('ref', {}).get('lid') in defs_:
+                        if any(y['k'] == 'MemberExpr' and y['ref'].get('name') == 'event' for d_ in defs_[x['ref']['lid']] for y in sub(d_)):
+                            timer = True
+            if is_free and timer:
                 fl = fl or la.fl(f)
                 frees.append((f, n, fl))
     rep.minimum('R09.2', len(frees), 3, 'event_free sites for pending timers')
@@ -109,21 +119,27 @@ def run(rep, tier):
 
     # ---- R09.4
     cd = fb.fn('uscxml::InterpreterImpl::cancelDelayed')
+    gcd = cfgm.CFG(cd)
     loops = [n for n in cd.walk() if n['k'] in ('ForStmt', 'WhileStmt', 'CXXForRangeStmt')]
     okloop = False
     both = False
+    fn_names = {s_.get('ref', {}).get('name') for s_ in cd.walk()}
+    fn_calls = {s_.get('callee', {}).get('q', '').split('::')[-1] for s_ in cd.walk() if s_.get('callee')}
+    walk_loops = []
     for lp in loops:
-        names = {s.get('ref', {}).get('name') for s in sub(lp)}
-        calls = {s.get('callee', {}).get('q', '').split('::')[-1] for s in sub(lp) if s.get('callee')}
-        if '_delayedEventTargets' in names and 'begin' in calls and 'end' in calls:
+        hdr_names = {s_.get('ref', {}).get('name') for s_ in sub(lp)}
+        hdr_calls = {s_.get('callee', {}).get('q', '').split('::')[-1] for s_ in sub(lp) if s_.get('callee')}
+        # for (it = m.begin(); it != m.end();)   /   it = m.begin(); while (it != m.end())   /   range-for over m
+        if '_delayedEventTargets' in hdr_names and ('end' in hdr_calls or lp['k'] == 'CXXForRangeStmt') and ('begin' in fn_calls or lp['k'] == 'CXXForRangeStmt'):
             okloop = True
-            for s in sub(lp):
-                if s['k'] == 'IfStmt':
-                    then = s['c'][1]
-                    tcalls = [x.get('callee', {}).get('q', '') for x in sub(then) if x.get('callee')]
-                    if any(q.endswith('DelayedEventQueue::cancelDelayed') for q in tcalls) and any(q.endswith('::erase') for q in tcalls):
-                        both = True
-    early = [s_ for lp in loops for s_ in sub(lp['c'][-1]) if s_['k'] in ('BreakStmt', 'ReturnStmt', 'GotoStmt')]
+            walk_loops.append(lp)
+            body = lp['c'][-1]
+            can = [x for x in sub(body) if x.get('callee', {}).get('q', '').endswith('DelayedEventQueue::cancelDelayed')]
+            era = [x for x in sub(body) if x.get('callee', {}).get('q', '').endswith('::erase') and any(y.get('ref', {}).get('name') == '_delayedEventTargets' for y in sub(x))]
+            # for a match both happen: one dominates the other (same branch), whatever the form of the test
+            if can and era and all(x['id'] in gcd.pos for x in can + era):
+                both = any(gcd.dominates(a['id'], b['id']) or gcd.dominates(b['id'], a['id']) for a in can for b in era)
+    early = [s_ for lp in walk_loops for s_ in sub(lp['c'][-1]) if s_['k'] in ('BreakStmt', 'ReturnStmt', 'GotoStmt')]
     rep.check(okloop and both and not early, 'R09.4', 'InterpreterImpl::cancelDelayed', cd.where(), 'walks _delayedEventTargets begin..end: %s; a match is cancelled in the queue and erased: %s; no early exit from the loop (every match is visited): %s' % (okloop, both, not early))
     qcd = fb.fn(DQ + '::cancelDelayed')
     for st in sub(qcd.d['body']):
@@ -154,29 +170,89 @@ def run(rep, tier):
 
     # ---- R09.6
     ps = fb.fn('uscxml::BasicContentExecutor::processSend')
-    table = {}
+    bool_defs = {}
     for n in ps.walk():
-        if n['k'] == 'IfStmt':
+        if n['k'] == 'DeclStmt':
+            for d in n.get('decls', []):
+                if (d.get('t') or '').replace('const ', '').strip() in ('bool', '_Bool') and d.get('init') is not None:
+                    bool_defs[d['lid']] = d['init']
+
+    def unit_truth(c, u):
+        """truth of condition c when the delay unit is the string u (None = does not depend on the unit / unknown)"""
+        c = strip(c)
+        if c is None:
+            return None
+        k = c['k']
+        if k == 'BinaryOperator' and c.get('op') in ('&&', '||'):
+            a, b = unit_truth(c['c'][0], u), unit_truth(c['c'][1], u)
+            if c['op'] == '||':
+                return True if (a is True or b is True) else False if (a is False and b is False) else None
+            return False if (a is False or b is False) else True if (a is True and b is True) else None
+        if k == 'UnaryOperator' and c.get('op') == '!':
+            v = unit_truth(c['c'][0], u)
+            return None if v is None else not v
+        if k == 'DeclRefExpr' and c.get('ref', {}).get('lid') in bool_defs:
+            return unit_truth(bool_defs[c['ref']['lid']], u)
+        mentions_unit = any(x.get('ref', {}).get('name') == 'unit' for x in sub(c))
+        if not mentions_unit:
+            return None
+        q = c.get('callee', {}).get('q', '')
+        lits = [x['str'] for x in sub(c) if x['k'] == 'StringLiteral' and 'str' in x]
+        if k == 'CallExpr' and q.endswith('iequals') and lits:
+            return lits[0].lower() == u.lower()
+        if k == 'CXXMemberCallExpr' and q.endswith('::empty'):
+            return u == ''
+        if k == 'CXXMemberCallExpr' and q.endswith('::compare') and lits:
+            return None
+        if k in ('BinaryOperator', 'CXXOperatorCallExpr') and c.get('op') in ('==', '!='):
+            kids = c['c'] if k == 'BinaryOperator' else c['c'][1:]
+            sizecall = any(x.get('callee', {}).get('q', '').endswith(('::length', '::size')) for x in sub(c))
+            zero = any(tab.const_of(x) == 0 for x in kids)
+            res = None
+            if sizecall and zero:
+                res = (u == '')
+            elif lits:
+                res = (lits[0] == u)
+            if res is None:
+                return None
+            return res if c['op'] == '==' else not res
+        return None
+
+    def multiplier(stmt):
+        assigns = [s_ for s_ in sub(stmt) if s_['k'] == 'BinaryOperator' and s_.get('op') == '=' and any(x.get('ref', {}).get('name') == 'delayMs' for x in sub(s_['c'][0]))]
+        if not assigns:
+            return None
+        mult = 1
+        for s_ in sub(assigns[0]['c'][1]):
+            if s_['k'] == 'BinaryOperator' and s_.get('op') == '*':
+                for side in s_['c']:
+                    cv = tab.const_of(side)
+                    if cv is not None:
+                        mult = cv
+        return mult
+    chains = []
+    for n in ps.walk():
+        if n['k'] == 'IfStmt' and not any(a['k'] == 'IfStmt' and a['c'] and n in [c_ for c_ in a['c'][2:] if c_ is not None] for a in ps.ancestors(n)):
             chain, els = tab.if_chain(n)
+            if any(unit_truth(cond, 'ms') is not None for cond, then in chain):
+                chains.append((chain, els))
+    if not chains:
+        raise AnalysisBroken('processSend: the dispatch on the delay unit was not found')
+    table = {}
+    for u in ('ms', 's', ''):
+        for chain, els in chains[:1]:
+            hit = None
             for cond, then in chain:
-                lits = [s['str'] for s in sub(cond) if s['k'] == 'StringLiteral' and 'str' in s]
-                is_unit = any(s.get('ref', {}).get('name') == 'unit' for s in sub(cond))
-                if not is_unit:
-                    continue
-                key = lits[0] if lits else ('' if any(s.get('callee', {}).get('q', '').endswith('::length') or s.get('callee', {}).get('q', '').endswith('::size') for s in sub(cond)) else None)
-                if key is None:
-                    continue
-                mult = 1
-                assigns = [s for s in sub(then) if s['k'] == 'BinaryOperator' and s.get('op') == '=' and any(x.get('ref', {}).get('name') == 'delayMs' for x in sub(s['c'][0]))]
-                if not assigns:
-                    continue
-                for s in sub(assigns[0]['c'][1]):
-                    if s['k'] == 'BinaryOperator' and s.get('op') == '*':
-                        for side in s['c']:
-                            cv = tab.const_of(side)
-                            if cv is not None:
-                                mult = cv
-                table.setdefault(key, mult)
+                v = unit_truth(cond, u)
+                if v is None:
+                    raise AnalysisBroken('processSend: a condition of the unit dispatch cannot be evaluated for unit "%s": %s' % (u, fb.text(cond)[:60]))
+                if v:
+                    hit = then
+                    break
+            if hit is not None:
+                m = multiplier(hit)
+                if m is not None:
+                    table[u] = m
     rep.check(table == {'ms': 1, 's': 1000, '': 1}, 'R09.6', 'processSend|units', ps.where(), 'unit -> multiplier table extracted: %s (expected {ms:1, s:1000, "":1})' % table)
     tv = None
     for n in enq.walk():
